@@ -27,6 +27,7 @@ P_RulePreserved == [][RulePreserved(dep, S, S')]_mcvars
 P_PubRuleOK     == [][PubRuleOK(dep, S, S')]_mcvars
 P_AssignOnOK    == [][op'.o \in {"assign", "assignfail"} => AssignOnOK(dep, S, S', op'.v, op'.e, op'.x)]_mcvars
 P_SelectOnOK    == [][op'.o = "sel" => SelectOnOK(dep, S', 1, op'.names)]_mcvars
+P_SwitchOneOK   == [][op'.o \in {"assign", "assignfail"} => SwitchOneOK(dep, S, S', op'.v, op'.e, op'.x)]_mcvars
 P_NoRaise       == [][op'.o # "assignfail" => ~S'.raised]_mcvars
 View == <<dep, S.val>>
 
